@@ -227,7 +227,82 @@ func c20Spaces(th bool) []*c20Space {
 		}
 		return b.String()
 	}
-	return []*c20Space{{name: "nestings", total: int64(len(items)), gen: gen}}
+	// "pairs" (thorough): two slots of one production filled at the same time with every pair of productions
+	type pitem struct {
+		outer  string
+		a, b   int // slot indexes
+		ka, kb int
+	}
+	var pitems []pitem
+	slotKinds := func(o string) []byte {
+		var ks []byte
+		for i := 0; i < len(o)-1; i++ {
+			if o[i] == '%' && (o[i+1] == 'E' || o[i+1] == 'S') {
+				ks = append(ks, o[i+1])
+			}
+		}
+		return ks
+	}
+	nOf := func(k byte) int {
+		if k == 'S' {
+			return len(c20Stmts)
+		}
+		return len(c20Exprs)
+	}
+	if th {
+		for _, o := range all {
+			ks := slotKinds(o)
+			for a := 0; a < len(ks); a++ {
+				for b := a + 1; b < len(ks); b++ {
+					for ka := 0; ka < nOf(ks[a]); ka++ {
+						for kb := 0; kb < nOf(ks[b]); kb++ {
+							pitems = append(pitems, pitem{o, a, b, ka, kb})
+						}
+					}
+				}
+			}
+		}
+	}
+	pgen := func(i int64) string {
+		it := pitems[i]
+		si := -1
+		var b strings.Builder
+		o := it.outer
+		for j := 0; j < len(o); j++ {
+			if o[j] == '%' && j+1 < len(o) && (o[j+1] == 'E' || o[j+1] == 'S') {
+				si++
+				slot := o[j+1]
+				j++
+				k := -1
+				if si == it.a {
+					k = it.ka
+				} else if si == it.b {
+					k = it.kb
+				}
+				if k < 0 {
+					if slot == 'E' {
+						b.WriteString(c20LeafE)
+					} else {
+						b.WriteString(c20LeafS)
+					}
+					continue
+				}
+				p := c20Stmts
+				if slot == 'E' {
+					p = c20Exprs
+				}
+				sub := c20Expand(p[k], 0, nil)
+				if slot == 'E' && strings.ContainsAny(p[k], " ") && !strings.HasPrefix(p[k], "(") {
+					sub = "(" + sub + ")"
+				}
+				b.WriteString(sub)
+				continue
+			}
+			b.WriteByte(o[j])
+		}
+		return b.String()
+	}
+	return []*c20Space{{name: "nestings", total: int64(len(items)), gen: gen}, {name: "pairs", total: int64(len(pitems)), gen: pgen}}
 }
 
 var (
@@ -402,6 +477,11 @@ func c20Worker(args []string) int {
 	debug.SetMaxStack(8 << 20)
 	th := os.Getenv("VERIF_THOROUGH") == "1"
 	sp := c20Get(th)[0]
+	for _, x := range c20Get(th) {
+		if x.name == args[0] {
+			sp = x
+		}
+	}
 	lo, _ := strconv.ParseInt(args[1], 10, 64)
 	hi, _ := strconv.ParseInt(args[2], 10, 64)
 	em := core.NewWorkerEmit()
@@ -431,14 +511,22 @@ func c20Worker(args []string) int {
 func c20Classify(src, class string) string { return "" }
 
 func C20(r *core.Run) map[string]interface{} {
-	r.Rule = fmt.Sprintf("templates generated from a grammar with one production per node kind the parser can build (%d statement productions incl. include, try, try/catch with and without variable, return, yield with parameters/context/content, block with content, assignments; %d expression productions incl. unary minus, '_' slot, slices with each bound omitted, chains on calls, index on chains, ternary, nil): every production in every slot of every production and a third level below, parsed by the real parser and walked in a crash-isolated worker; oracle: reflective traversal of Template.Root by pointer identity - every statement/expression node handed to the visitor exactly once, containers at most once, no nil or foreign node, terminates; distinct = distinct sets of node kinds in a conforming tree", len(c20Stmts), len(c20Exprs))
+	r.Rule = fmt.Sprintf("templates generated from a grammar with one production per node kind the parser can build (%d statement productions incl. include, try, try/catch with and without variable, return, yield with parameters/context/content, block with content, assignments; %d expression productions incl. unary minus, '_' slot, slices with each bound omitted, chains on calls, index on chains, ternary, nil): every production in every slot of every production and a third level below (thorough: also every pair of productions in every two slots of a production), parsed by the real parser and walked in a crash-isolated worker; oracle: reflective traversal of Template.Root by pointer identity - every statement/expression node handed to the visitor exactly once, containers at most once, no nil or foreign node, terminates; distinct = distinct sets of node kinds in a conforming tree", len(c20Stmts), len(c20Exprs))
 	os.Setenv("VERIF_THOROUGH", "1") // the three-level space is cheap enough for the quick tier too
 	sp := c20Get(true)[0]
 	ws := &core.WorkerSpace{Kind: "c20", Name: sp.name, Total: sp.total, Batch: 2000, Timeout: 60 * time.Second,
 		Describe: func(i int64) interface{} { return sp.gen(i) },
 		CrashSig: func(i int64, stderr string) string { return "" }}
 	r.RunWorkers(ws)
-	return map[string]interface{}{"templates_generated": sp.total, "statement_productions": len(c20Stmts), "expression_productions": len(c20Exprs), "traces_validated_against_impl": r.Evals()}
+	total := sp.total
+	if r.Thorough() {
+		pp := c20Get(true)[1]
+		total += pp.total
+		r.RunWorkers(&core.WorkerSpace{Kind: "c20", Name: pp.name, Total: pp.total, Batch: 2000, Timeout: 60 * time.Second,
+			Describe: func(i int64) interface{} { return pp.gen(i) },
+			CrashSig: func(i int64, stderr string) string { return "" }})
+	}
+	return map[string]interface{}{"templates_generated": total, "statement_productions": len(c20Stmts), "expression_productions": len(c20Exprs), "traces_validated_against_impl": r.Evals()}
 }
 
 func init() {
